@@ -69,6 +69,28 @@ CLAIMED = {
 
 TODO = []
 
+# appended to every technique: what is varied per run beside the plan and the schedule
+SWARM = ("; per-run swarm from the tape: scheduling strategy (sequential/random/sticky/PCT), TLS version of the clients (1.3 or <=1.2), listener ConnBuffer, "
+         "websocket compression, how the server certificate is supplied, TLS configuration on plain websocket dials, seeded cryptographic randomness")
+EXTRA = {
+    "C02": "; string-spelling mutations; structural comparison of the accepted envelope with what its encoding decodes to",
+    "C03": "; offered = announced on the wire; deaf in-process clients with short queues",
+    "C04": "; responses sent at the instant the abandoned command's context expires",
+    "C05": "; a responder that ends the session right behind its answer",
+    "C06": "; write-call entry times on the simulated socket vs the channel's own report of the end; a peer breaking off mid-envelope; a data envelope in front of the TLS hello",
+    "C08": "; the scripted server switches to TLS behind its confirmation; later session envelopes after establishment",
+    "C09": "; client role: a real ClientChannel against a scripted server that offers, confirms and switches, with shaped TLS flights; real websocket clients",
+    "C12": "; sender closing right behind its last Send; a receiver that talks back; wire timing of envelopes whose Send failed",
+    "C13": "; a high-level Client as observer of server-initiated ends",
+    "C14": "; chattering refused clients; in-process queue sizes; bounded Close of the client's own end",
+    "C15": "; a dripping peer; the measured send as the first blocking write",
+    "C16": "; well-formed non-envelopes in the stream",
+    "C17": "; broadcast of one envelope object; pooled clients with equal candidates; an intruder presenting a live session id",
+    "C18": "; half-closing scripted clients; a second life of the same Server",
+    "C19": "; a scripted-server variant (handshakes answered with finished/failed/nothing for a while)",
+    "C20": "; AutoReplyPings behind the generated table",
+}
+
 
 def main():
     checks = []
@@ -83,7 +105,7 @@ def main():
             "engine": "simrt",
             "level_claimed": {"category": level, "text": text, "design_ref": "DESIGN.md section 6 (%s)" % pid},
             "level_note": note,
-            "technique": tech,
+            "technique": tech + SWARM + EXTRA.get(pid, ""),
         })
     na = [{"property_id": k, "reason": v} for k, v in sorted(NA.items())]
     for pid in TODO:
